@@ -105,6 +105,26 @@ pub struct Scene {
     pub xml: Option<String>,
 }
 
+/// every string of the scene can be carried by XML 1.0 (otherwise the writer has to refuse)
+pub fn scene_storable(sc: &Scene) -> bool {
+    let ok = |s: &str| crate::eng_writer::storable(s);
+    let mut all: Vec<&str> = vec![&sc.guid];
+    all.extend(sc.cm.as_deref());
+    for e in &sc.exts {
+        all.push(&e.1);
+    }
+    for c in &sc.clouds {
+        all.extend(c.guid.as_deref());
+        all.extend(c.strs.iter().flatten().map(|s| s.as_str()));
+        all.extend(c.og.iter().flatten().map(|s| s.as_str()));
+    }
+    for i in &sc.images {
+        all.extend(i.guid.as_deref());
+        all.extend(i.strs.iter().flatten().map(|s| s.as_str()));
+    }
+    all.iter().all(|s| ok(s))
+}
+
 pub const PC_STR: [&str; 8] = ["NAME", "DESC", "VENDOR", "MODEL", "SERIAL", "HW", "SW", "FW"];
 pub const IMG_STR: [&str; 6] = ["NAME", "DESC", "PCG", "VENDOR", "MODEL", "SERIAL"];
 
@@ -121,7 +141,11 @@ fn is_int(d: &DT) -> bool {
 }
 
 pub fn ref_valid_name(s: &str) -> bool {
-    !s.is_empty() && !s.to_lowercase().starts_with("xml") && s.chars().all(|c| c.is_ascii_alphanumeric() || c == '_' || c == '-')
+    // the documented character set, and the name must be usable as an XML name: no digit or dash in front
+    !s.is_empty()
+        && !s.to_lowercase().starts_with("xml")
+        && s.chars().all(|c| c.is_ascii_alphanumeric() || c == '_' || c == '-')
+        && s.chars().next().map(|c| c.is_ascii_alphabetic() || c == '_').unwrap_or(false)
 }
 
 /// the documented prototype rules (README / docs of add_pointcloud), written from the documentation
